@@ -27,6 +27,9 @@ def materialise(layout, base):
         root = os.path.join(base, 'r%d' % ri)
         os.makedirs(root)
         roots.append(root)
+        if spec.get('rinit'):
+            # a stray __init__.py in the source root itself: the root is still where top-level names live
+            write(os.path.join(root, '__init__.py'))
         a = spec['a']
         if a['k'] == 'module':
             p = os.path.join(root, 'vqa.py')
@@ -171,7 +174,8 @@ def main():
         for pkg in ('vqa', 'vqa.vqc', 'vqa.vqd', 'vqb', 'json'):
             found, file_, kind = ref_find(pkg, roots)
             if found and kind == 'package':
-                ref_children = {m.name for m in pkgutil.iter_modules([os.path.dirname(file_)])}
+                # (names that are not identifiers cannot be written in an import statement: C12 forbids proposing them)
+                ref_children = {m.name for m in pkgutil.iter_modules([os.path.dirname(file_)]) if m.name.isidentifier()}
             else:
                 # a plain module, or nothing importable under that name: nothing below it can be imported
                 # (these layouts have no namespace directories)
